@@ -170,7 +170,7 @@ Qed.
 Definition ex06_spec (inp : list (str * (list scmd * ret_val))) : screen_spec :=
   {| sc_setup := []; sc_refresh := []; sc_show := []; sc_closed := []; sc_input := inp;
      sc_input_default := ([], None); sc_prompt_none := false; sc_input_required := true;
-     sc_no_separator := false; sc_skip_check := false; sc_pages := 0 |}.
+     sc_no_separator := false; sc_skip_check := false; sc_pages := 0; sc_answer0 := AnsNoAttr |}.
 Definition ex06_specl : list screen_spec :=
   [ex06_spec [([49%N], ([SPush 1 3], RProcessed)); ([50%N], ([SPushModal 2 0], RProcessed))];
    ex06_spec []; ex06_spec []].
@@ -187,7 +187,7 @@ Definition user_events (tag : nat) (t : list event) : list (list nat * str) :=
 Definition f15_spec : screen_spec :=
   {| sc_setup := []; sc_refresh := [SIfCount 1 [] [SForceQuit]]; sc_show := [SIfCount 1 [SPush 0 2] []]; sc_closed := [];
      sc_input := []; sc_input_default := ([], Some RProcessed); sc_prompt_none := false; sc_input_required := true;
-     sc_no_separator := false; sc_skip_check := false; sc_pages := 0 |}.
+     sc_no_separator := false; sc_skip_check := false; sc_pages := 0; sc_answer0 := AnsNoAttr |}.
 Definition f15_typed : list (option str) := [Some [49%N]; Some [50%N]].
 Definition f15_acts : list saction := [SACmds [SSchedule 0 1]; SARun; SARun].
 Definition f15_trace : list event :=
